@@ -67,10 +67,17 @@ def run(prop, tier, seed, scratch, replay=None):
         # (spec/ChainSync.tla behaviours on a real wallet + scripted backend; C02 owns the transaction status)
         wdrv = vlib.build_driver(scratch, "replay-wallet")
         wtr = scratch.path("cs.ndjson")
-        cs = vlib.run_tlc(scratch, "ChainSync.tla", "MC_ChainSync_%s.cfg" % tier, out_traces=wtr, tag="cs", timeout=1800)
-        vlib.require_tlc_ok(cs, "ChainSync exploration (wallet-level pass)")
         wrep = scratch.path("cs-report.json")
-        every = 120 if tier == "quick" else 20
+        if tier == "quick":
+            cs = vlib.run_tlc(scratch, "ChainSync.tla", "MC_ChainSync_sim.cfg", simulate=300, depth=26, seed=seed,
+                              out_traces=wtr, tag="cs", timeout=900)
+            if cs["errors"]:
+                raise vlib.Broken("ChainSync simulation failed: %s" % cs["errors"][:3])
+            every = 1
+        else:
+            cs = vlib.run_tlc(scratch, "ChainSync.tla", "MC_ChainSync_quick.cfg", out_traces=wtr, tag="cs", timeout=1800)
+            vlib.require_tlc_ok(cs, "ChainSync exploration (wallet-level pass)")
+            every = 20
         vlib.run_driver(wdrv, ["-in", wtr, "-out", wrep, "-spec", "chainsync", "-prop", "C02", "-seed", seed,
                                "-every", every, "-offset", seed % every, "-workers", vlib.NCPU], timeout=3600)
         wl = vlib.load_report(wrep)
